@@ -62,9 +62,12 @@ CLAIMS = {
         note="trusted: pyvc semantics incl. the struct model for '< x B H', z3; zlib round trip assumed (A12); the decode loop is bounded by the unrolling stated; fragment sizes of real compressed schedules only by a bounded native sweep"),
 }
 
+CLAIMS["C15"] = dict(cat="other", ref="DESIGN.md 5/C15",
+    text="partial: the association step every parent/child link goes through -- Child.set_parent with _get_parent and Parent._add_child, on real Controller / Evohome / Zone / DhwZone / UfhController and device objects, for every device class, ANY parent (two controllers), any child id, either sensor flag, twice in a row, with a role possibly held by another device: a step either raises and changes nothing, or returns with parent / controller / system / child tables / role slot set consistently and within the role rules; a device is never moved to another parent or controller, a taken role (zone sensor, DHW sensor, DHW / heating valve, appliance control) is never handed to another device, and a zone is only looked up below the configured maximum; Zone.__init__ refuses an index at or above the maximum and a duplicate -- SMT-discharged on the real functions; one listed known finding (a relay accepted as both DHW valves)",
+    note="trusted: pyvc semantics, z3; Evohome.get_htg_zone / get_dhw_zone are contracts (they go through the third-party validator); NOT decided: that the reported schema is accepted by the voluptuous validators, that it re-loads into an equal gateway, whole packet histories (only states that two association steps can reach, plus one role held by another device)")
+
 NA = {
     "C12": "Convergence of discovery against an arbitrary controller is a closed-loop liveness property over ~60 dynamically dispatched entity classes, timers and an external device; no per-function contract states it.",
-    "C15": "Quantifies over reachable shapes of a mutable object graph, a third-party validator (voluptuous) and gateway re-construction; no heap/ownership logic for Python is available here.",
 }
 PENDING = "contracts for this property are planned (DESIGN.md section 5) but not yet built in /verif; not claimed until its check exists"
 ALL = [f"C{i:02d}" for i in range(1, 21)]
